@@ -160,6 +160,18 @@ func buildCall(sym slip.Symbol, args slip.List, p *slip.Printer) (node Node) {
 		if 0 < len(args) {
 			node = newQuote(args[0], p)
 		}
+	case "backquote":
+		if len(args) == 1 {
+			node = newPrefixed("`", args[0], p)
+		}
+	case "comma":
+		if len(args) == 1 {
+			node = newPrefixed(",", args[0], p)
+		}
+	case "comma-at":
+		if len(args) == 1 {
+			node = newPrefixed(",@", args[0], p)
+		}
 	case "let", "let*":
 		node = newLet(name, args, p)
 	case "lambda":
@@ -214,6 +226,9 @@ func buildCall(sym slip.Symbol, args slip.List, p *slip.Printer) (node Node) {
 		} else {
 			node = newFun(name, args, p, 1)
 		}
+	}
+	if node == nil {
+		node = newFun(name, args, p, 1)
 	}
 	return
 }
